@@ -17,7 +17,7 @@ class C13(fw.Prop):
             "{0,1,63,64,126,127,128,129,255,256,8191,16382,16383}^2 (+16384 and client-with-physical as refusals) plus random; "
             "every accepted address is then placed as destination and as source next to every boundary partner in a synthetic frame "
             "and located/decoded; random byte strings exercise the locator outside the property (model correspondence); "
-            "frames from stations whose address bytes contain 0x7E delivered through a real HdlcConnection whole / byte by byte / in threes (UA, then an information frame); other spellings of the address type are refused or behave as the type they spell; non-trivial = distinct protocol line")
+            "frames from stations whose address bytes contain 0x7E delivered through a real HdlcConnection whole / byte by byte / in threes (UA, then an information frame); other spellings of the address type are refused or behave as the type they spell; every refusal is preceded by a parse that failed in the same process; RR frames through a connection from one-, two- and four-byte stations; whole sessions against the reactive meter of C18 (every written frame addressed correctly); non-trivial = distinct protocol line")
     trusted_base = ["Spec.Addr is my reading of IEC 62056-46 extended addressing",
                     "the correspondence harness (calls HdlcAddress(...).to_bytes / find_address_in_frame_bytes)"]
     assumptions = ["a server logical address above 127 without physical address and a client address with a physical part have no standard form and must be refused (DESIGN.md §6 C13)"]
